@@ -53,10 +53,11 @@ def run_native(trace, keep_path=None):
 # ------------------------------------------------------------------ trace construction
 def split_actions(log):
     """engine log (init/act/env tuples as lists of str) -> (init, [ {act, env} ])"""
-    init = None; acts = []
+    init = None; acts = []; probing = False
     for e in log:
         if e[0] == 'init': init = e
-        elif e[0] == 'act': acts.append({'act': list(e[1:]), 'env': []})
+        elif e[0] == 'probe': probing = True
+        elif e[0] == 'act': acts.append({'act': list(e[1:]), 'env': [], 'probe': probing})
         elif e[0] == 'env' and acts: acts[-1]['env'].append(list(e[1:]))
     return init, acts
 
@@ -95,7 +96,7 @@ def build_trace(cfg, log, model, kind='managed'):
         a = [conv(x) for x in st['act']]
         step = {'act': a, 'env': [[conv(x) for x in e] for e in st['env']]}
         step['thread'] = a[1] if a[0] in ('get', 'poll', 'cancel', 'drop', 'take', 'step') else 'C'
-        if cfg.get('thread_mode') and si < nprefix: step['atomic'] = True
+        if cfg.get('thread_mode') and (si < nprefix or st.get('probe')): step['atomic'] = True
         if any(e[0] == 'timer' and e[2] == 'expired' for e in st['env']):
             step['advance_ns'] = STEP_NS; done += 1
         if a[0] == 'get':
@@ -176,7 +177,7 @@ def run_engine(prog, trace):
     vios = []
     for i, step in enumerate(trace['actions']):
         a = tuple(step['act'])
-        if cfg.get('thread_mode'): B.M.task_mode = i < nprefix
+        if cfg.get('thread_mode'): B.M.task_mode = bool(step.get('atomic'))
         succ = B.apply(st, a)
         want = [tuple(str(x) for x in e) for e in step['env']]
         match = []
@@ -203,6 +204,9 @@ def run_engine(prog, trace):
         status, snap = B.observe(s2)
         obs.append({'i': i, 'res': res, 'events': events, 'status': status, 'snap': snap})
         st = s2
+    flags = tuple(st.gget('flags', ())) + (('close_overlap',) if st.gget('close_overlap') else ())
+    for v in vios: v['flags'] = flags
+    run_engine.last_flags = flags
     return obs, vios
 
 
@@ -252,7 +256,11 @@ def confirm(pid, v, blobs=None):
         same = [x for x in vios if x['property'] == pid]
         if not same and not v.get('probe_log'):
             return {'status': 'not_reproduced', 'detail': 'concrete re-execution of the trace did not raise the violation again', 'path': path}
-        return {'status': 'confirmed', 'path': path, 'steps': len(native)}
+        need = {'K-C07a': 'shrink_unused', 'K-C07b': 'grow_with_surplus', 'K-C06': 'close_overlap'}
+        kid = v.get('known')
+        if kid in need and need[kid] not in run_engine.last_flags: kid = None      # the concrete history does not play the known role
+        if same and any(x.get('known') != v.get('known') for x in same if x['what'][:60] == v['what'][:60]): kid = None
+        return {'status': 'confirmed', 'path': path, 'steps': len(native), 'known': kid}
     except ReplayError as e:
         return {'status': 'replay_error', 'detail': str(e)[:600]}
     except Exception as e:
